@@ -8,6 +8,7 @@ mod c04;
 mod c08;
 mod c16;
 mod c18;
+mod c19;
 mod c20;
 mod c06;
 mod c07;
@@ -43,6 +44,7 @@ fn main() {
                 "C08" => c08::run(&tier),
                 "C16" => c16::run(&tier),
                 "C18" => c18::run(&tier),
+                "C19" => c19::run(&tier),
                 "C20" => c20::run(&tier),
                 "C06" => c06::run(&tier),
                 "C07" => c07::run(&tier),
@@ -60,6 +62,7 @@ fn main() {
             drive::cleanup_scratch();
             std::process::exit(code);
         },
+        Some("hash-probe") => { c19::hash_probe(); },
         Some("m2-selftest") => std::process::exit(m2::selftest()),
         Some("c14-debug") => { c14::debug_print(); },
         Some("replay") => {
@@ -73,6 +76,7 @@ fn main() {
                 "C08" => c08::replay(detail),
                 "C16" => c16::replay(detail),
                 "C18" => c18::replay(detail),
+                "C19" => c19::replay(detail),
                 "C20" => c20::replay(detail),
                 "C06" => c06::replay(detail),
                 "C07" => c07::replay(detail),
